@@ -142,7 +142,8 @@ func vspecAckType(s message.Type) bool {
 //@   ensures[C13:entry] !old(haskey(aq.emap, pktid)) && err == nil ==> vdefView(aq, old(aq.count)).Pktid == pktid && vdefView(aq, old(aq.count)).State == message.RESERVED && vdefView(aq, old(aq.count)).OnComplete == onComplete
 //@        && fresh(arr(vdefView(aq, old(aq.count)).Msgbuf)) && len(vdefView(aq, old(aq.count)).Ackbuf) == 0
 //@   ensures[C13:bufs] preservedarrays(aq.ring[0].Msgbuf)
-//@   modifies aq.size, aq.mask, aq.ring, aq.head, aq.tail, aq.count, aq.emap, elems(aq.ring), mapof(aq.emap), heap("F.message.header.remlen"), heap("F.message.header.dirty"), heap("F.message.header.packetID"), message.gPacketID
+//@   ensures[C02:keepid] old(message.vspecPacketID(ifaceval(msg, *message.header).packetID)) != 0 || !old(ifaceval(msg, *message.header).dirty) ==> message.vspecPacketID(ifaceval(msg, *message.header).packetID) == old(message.vspecPacketID(ifaceval(msg, *message.header).packetID))
+//@   modifies aq.size, aq.mask, aq.ring, aq.head, aq.tail, aq.count, aq.emap, elems(aq.ring), mapof(aq.emap), ifaceval(msg, *message.header).remlen, ifaceval(msg, *message.header).dirty, ifaceval(msg, *message.header).packetID, message.gPacketID
 
 // ---- locks (DESIGN 2.5): Lock requires the lock not to be held by this goroutine, Unlock requires it held;
 // every function must return with the locks it entered with.
@@ -167,7 +168,7 @@ func vspecAckType(s message.Type) bool {
 //@   ensures[C13:unknown] !old(haskey(aq.emap, message.vspecPacketID(ifaceval(msg, *message.header).packetID))) || !vspecAckType(old(message.Type(ifaceval(msg, *message.header).mtypeflags[0]>>4))) ==> forall(0, int(aq.size), func(i int) bool { return aq.ring[i].State == old(aq.ring[i].State) && aq.ring[i].Ackbuf == old(aq.ring[i].Ackbuf) })
 //@   ensures[C13:known] old(haskey(aq.emap, message.vspecPacketID(ifaceval(msg, *message.header).packetID))) && vspecAckType(old(message.Type(ifaceval(msg, *message.header).mtypeflags[0]>>4))) ==> aq.ring[old(aq.emap[message.vspecPacketID(ifaceval(msg, *message.header).packetID)])].State == old(message.Type(ifaceval(msg, *message.header).mtypeflags[0]>>4)) && fresh(arr(aq.ring[old(aq.emap[message.vspecPacketID(ifaceval(msg, *message.header).packetID)])].Ackbuf))
 //@   ensures[C13:bufs] preservedarrays(aq.ring[0].Msgbuf)
-//@   modifies elems(aq.ring), aq.ping, heap("F.message.header.remlen"), heap("F.message.header.dirty"), heap("F.message.header.packetID"), message.gPacketID, heap("GF.clock"), heap("GF.mlockedAt")
+//@   modifies elems(aq.ring), aq.ping, ifaceval(msg, *message.header).remlen, ifaceval(msg, *message.header).dirty, ifaceval(msg, *message.header).packetID, message.gPacketID, heap("GF.clock"), heap("GF.mlockedAt")
 
 // Wait: registers a request (PUBLISH QoS>0, SUBSCRIBE, UNSUBSCRIBE by packet id; PINGREQ in the ping slot).
 //@ func (*Ackqueue).Wait
@@ -184,7 +185,8 @@ func vspecAckType(s message.Type) bool {
 //@   ensures[C13:entry] aq.count == old(aq.count)+1 ==> vdefView(aq, old(aq.count)).State == message.RESERVED && vdefView(aq, old(aq.count)).OnComplete == onComplete && int(vdefView(aq, old(aq.count)).Pktid) == old(message.vspecPacketID(ifaceval(msg, *message.header).packetID))
 //@        && fresh(arr(vdefView(aq, old(aq.count)).Msgbuf))
 //@   ensures[C13:bufs] preservedarrays(aq.ring[0].Msgbuf)
-//@   modifies aq.size, aq.mask, aq.ring, aq.head, aq.tail, aq.count, aq.emap, aq.ping, elems(aq.ring), mapof(aq.emap), heap("F.message.header.remlen"), heap("F.message.header.dirty"), heap("F.message.header.packetID"), message.gPacketID, heap("GF.clock"), heap("GF.mlockedAt")
+//@   ensures[C02:keepid] old(message.vspecPacketID(ifaceval(msg, *message.header).packetID)) != 0 || !old(ifaceval(msg, *message.header).dirty) ==> message.vspecPacketID(ifaceval(msg, *message.header).packetID) == old(message.vspecPacketID(ifaceval(msg, *message.header).packetID))
+//@   modifies aq.size, aq.mask, aq.ring, aq.head, aq.tail, aq.count, aq.emap, aq.ping, elems(aq.ring), mapof(aq.emap), ifaceval(msg, *message.header).remlen, ifaceval(msg, *message.header).dirty, ifaceval(msg, *message.header).packetID, message.gPacketID, heap("GF.clock"), heap("GF.mlockedAt")
 
 // Acked: hands back the answered ping (if any) followed by the maximal prefix of the FIFO whose entries have reached
 // a terminal state, and removes exactly those. P = 1 if a ping answer is returned first, else 0.
